@@ -20,6 +20,8 @@ def call(f, *a, **k):
 def pats(arr3):
     """3-d array / list of matrices -> sorted list of non-zero patterns."""
     arr3 = np.asarray(arr3)
+    if arr3.ndim == 3:                          # k graphs (k members of shape (0, 0) when p = 0)
+        return sorted(G.pattern(M) for M in arr3.tolist())
     if arr3.size == 0:
         return []
     return sorted(G.pattern(M) for M in arr3.tolist())
